@@ -7,14 +7,20 @@
 EXTENDS Meta, Json, IOUtils
 
 CONSTANTS MaxLen, MaxBundles, OutFile, WithCrash, WithRepoOps, WithSquash,
+          LabelW, \* weight of label assignments in the random walk
+          Script, \* "none": random walk; "squash": exhaustive scripted squash scenarios
           Ops   \* enabled operation families: subset of {"label", "delete", "diff", "download", "keys", "update"}
-VARIABLES hist, stage
+VARIABLES hist, stage, pos
 
-gvars == <<mvars, hist, stage>>
+gvars == <<mvars, hist, stage, pos>>
 
 GPaths == { [p |-> "a", gen |-> FALSE], [p |-> "d/a", gen |-> FALSE], [p |-> "d/b", gen |-> FALSE],
             [p |-> "sp ace", gen |-> FALSE], [p |-> "d/e/ü", gen |-> FALSE],
-            [p |-> ".datamon/x", gen |-> TRUE], [p |-> ".conflicts/s/a", gen |-> TRUE] }
+            [p |-> ".datamon/x", gen |-> TRUE], [p |-> ".conflicts/s/a", gen |-> TRUE],
+            [p |-> ".checkpoints/c", gen |-> TRUE],
+            \* look-alikes of the reserved locations, which are ordinary files
+            [p |-> ".datamonrc", gen |-> FALSE], [p |-> ".conflicts.txt", gen |-> FALSE],
+            [p |-> "d/.datamon/x", gen |-> FALSE], [p |-> ".checkpoints-old/x", gen |-> FALSE] }
 GLabels == { [n |-> "v1.2.3", semver |-> TRUE], [n |-> "latest", semver |-> FALSE],
              [n |-> "a_b", semver |-> FALSE], [n |-> "1.0.0", semver |-> TRUE] }
 
@@ -61,6 +67,14 @@ GUploadCrash(r, t, k, j) ==
   /\ WithCrash /\ Len(bun) < MaxBundles
   /\ UploadCrash(r, t, k, j)
   /\ Log([op |-> "uploadcrash", repo |-> r, tree |-> TreeArg(t), bulk |-> k, id |-> Len(bun) + 1, after |-> j])
+
+\* one metadata write of the upload fails transiently (the k-th one; the client lives on):
+\* the upload must report the failure and must not publish the bundle
+GUploadFault(r, t, k, f) ==
+  /\ WithCrash /\ Len(bun) < MaxBundles
+  /\ f >= 1 /\ f <= CeilDiv(Cardinality(DOMAIN Uploadable(t)) + k, E) + 1
+  /\ UploadCrash(r, t, k, f - 1)
+  /\ Log([op |-> "uploadfault", repo |-> r, tree |-> TreeArg(t), bulk |-> k, id |-> Len(bun) + 1, fail |-> f])
 
 \* the descriptor landed but the client crashed before learning it: a complete, visible bundle
 GUploadCrashAfterDesc(r, t, k) ==
@@ -145,9 +159,10 @@ GStep ==
   \/ \E r \in repos, i \in 1..3 : \E t \in {RandTree}, k \in {R(Bulks)} : GUpload(r, t, k)
   \/ \E r \in repos : \E j \in 0..2 : \E t \in {RandTree}, k \in {R(Bulks)} : GUploadCrash(r, t, k, j)
   \/ \E r \in repos : \E t \in {RandTree}, k \in {R(Bulks)} : GUploadCrashAfterDesc(r, t, k)
+  \/ \E r \in repos : \E f \in 1..3 : \E t \in {RandTree}, k \in {R(Bulks)} : GUploadFault(r, t, k, f)
   \/ "keys" \in Ops /\ \E r \in repos, i \in 1..2 : \E t \in {RandTree}, skip \in {R(BOOLEAN)} :
         \E keys \in {[j \in 1..R(0..4) |-> R(Paths)]} : GUploadKeys(r, t, keys, skip)
-  \/ "label" \in Ops /\ \E r \in repos, i \in 1..2 : \E b \in {R(VisibleIn(r) \cup {0})} : \E n \in {R(Labels)} :
+  \/ "label" \in Ops /\ \E r \in repos, i \in 1..LabelW : \E b \in {R(VisibleIn(r) \cup {0})} : \E n \in {R(Labels)} :
         b # 0 /\ GSetLabel(r, n, b)
   \/ "label" \in Ops /\ \E r \in repos : \E n \in {R(Labels)} : GDeleteLabel(r, n)
   \/ "delete" \in Ops /\ \E r \in repos : \E b \in {R(VisibleIn(r) \cup {0})} : b # 0 /\ GDeleteBundle(r, b)
@@ -159,12 +174,34 @@ GStep ==
   \/ "update" \in Ops /\ \E i \in 1..2 : \E a \in {R(Ids \cup {0})}, b \in {R(Ids \cup {0})} : GUpdate(a, b)
   \/ "download" \in Ops /\ \E b \in {R(Ids \cup {0})} : \E sel \in {RandSubset(Paths)} : GDownload(b, sel)
 
-GNext == /\ stage = "run"
-         /\ IF Len(hist) < MaxLen
-              THEN GStep /\ UNCHANGED stage
-              ELSE stage' = "done" /\ UNCHANGED <<mvars, hist>>
+\* ---- scripted scenarios (BFS enumerates every one exactly once):
+\* one repository, three uploads each either complete or interrupted after its index file,
+\* every label either unassigned or on one of the visible bundles, one squash
+LabelSeq == <<[n |-> "1.0.0", semver |-> TRUE], [n |-> "a_b", semver |-> FALSE],
+              [n |-> "latest", semver |-> FALSE], [n |-> "v1.2.3", semver |-> TRUE]>>
+ScriptTree == [p \in {[p |-> "a", gen |-> FALSE]} |-> "s"]
+ScriptStep ==
+  CASE pos = 0 -> GCreateRepo("r1") /\ pos' = 1
+    [] pos \in 1..3 -> /\ \/ GUpload("r1", ScriptTree, 0)
+                          \/ GUploadCrash("r1", ScriptTree, 0, 1)
+                       /\ pos' = pos + 1
+    [] pos \in 4..7 -> /\ \/ \E b \in VisibleIn("r1") : GSetLabel("r1", LabelSeq[pos - 3], b)
+                          \/ UNCHANGED <<mvars, hist>>
+                       /\ pos' = pos + 1
+    [] pos = 8 -> /\ \E n \in 1..3, m \in {"none", "tags", "semver"} : GSquash("r1", n, m)
+                  /\ pos' = 9
+    [] OTHER -> FALSE
 
-GInit == Init /\ hist = <<>> /\ stage = "run"
+GNext == /\ stage = "run"
+         /\ IF Script = "squash"
+              THEN IF pos < 9 THEN ScriptStep /\ UNCHANGED stage
+                   ELSE stage' = "done" /\ UNCHANGED <<mvars, hist, pos>>
+              ELSE /\ UNCHANGED pos
+                   /\ IF Len(hist) < MaxLen
+                        THEN GStep /\ UNCHANGED stage
+                        ELSE stage' = "done" /\ UNCHANGED <<mvars, hist>>
+
+GInit == Init /\ hist = <<>> /\ stage = "run" /\ pos = 0
 GSpec == GInit /\ [][GNext]_gvars
 
 Dump == stage = "done" =>
